@@ -496,7 +496,12 @@ class Plane:
                 # contained in adjacent masks that may be present in the sliced
                 # amp and opd arrays.
                 mask = self.mask if self.mask.ndim < 3 else self.mask[n]
-                amp = self.amplitude * mask[s] if self.amplitude.size == 1 else self.amplitude[s] * mask[s]
+                # the mask is binary: only where it is non-zero counts, not the type it
+                # is stored in (a scalar amplitude would be rounded to a narrow mask
+                # type), and amplitude and phasor are at least double precision
+                inside = mask[s] != 0
+                amp = self.amplitude * inside if self.amplitude.size == 1 else self.amplitude[s] * inside
+                amp = amp.astype(np.result_type(amp.dtype, np.float64), copy=False)
                 opd = self.opd if self.opd.size == 1 else self.opd[s]
                 # the phase is computed in double precision whatever the type the
                 # OPD map is stored in (a single precision map would otherwise give
